@@ -872,6 +872,8 @@ type modelCheck struct {
 	NonTrivial func(cs *modelCase, v *verdict) bool
 	// NestedChoice > 0: one case in that many is a synthetic nested-choice case.
 	NestedChoice int
+	// TypeOperand > 0: one case in that many is a synthetic type-operand case.
+	TypeOperand int
 }
 
 func (mc *modelCheck) record(c *evid.Collector, cs *modelCase, v *verdict) {
@@ -953,9 +955,38 @@ func nestedChoiceCase(rt *rapid.T) *modelCase {
 	}
 }
 
+// typeOperandCase: a metavariable that stands for a type is put below a
+// type constructor on the '+' side (chan x, *x, []x, func(x), map[x]x). The
+// printed result has to mean what the tree means: "chan (<-chan int)" is not
+// "chan<- chan int".
+func typeOperandCase(rt *rapid.T) *modelCase {
+	types := []string{"<-chan int", "chan<- int", "chan int", "int", "*T", "[]T", "func() <-chan int", "map[K]<-chan V", "pkgq.T", "struct{}", "interface{ M() }", "[3]<-chan int"}
+	wraps := []struct{ plus, patchPlus string }{
+		{"make(chan hv1)", "make(chan hv1)"}, {"make(chan<- hv1)", "make(chan<- hv1)"}, {"make(<-chan hv1)", "make(<-chan hv1)"},
+		{"new(*hv1)", "new(*hv1)"}, {"make([]hv1, 0)", "make([]hv1, 0)"}, {"make(map[string]hv1)", "make(map[string]hv1)"},
+		{"mk2(func(hv1) hv1 { panic(0) })", "mk2(func(hv1) hv1 { panic(0) })"}, {"make(chan chan hv1)", "make(chan chan hv1)"},
+	}
+	w := wraps[rapid.IntRange(0, len(wraps)-1).Draw(rt, "typeWrap")]
+	var body strings.Builder
+	n := rapid.IntRange(1, 4).Draw(rt, "typeSites")
+	for i := 0; i < n; i++ {
+		body.WriteString("\t_ = mkq(" + rapid.SampledFrom(types).Draw(rt, fmt.Sprintf("typeArg%d", i)) + ")\n")
+	}
+	return &modelCase{
+		Spec:   ref.Spec{Holes: map[string]ref.HoleKind{"hv1": ref.ExprHole}, Minus: "mkq(hv1)", Plus: w.plus},
+		Patch:  "@@\nvar hv1 expression\n@@\n-mkq(hv1)\n+" + w.patchPlus + "\n",
+		Host:   "package typeops\n\nfunc f() {\n" + body.String() + "}\n",
+		Origin: "synthetic:type-operand",
+	}
+}
+
 func (mc *modelCheck) run(t *testing.T) {
 	c := coll(mc.Prop)
 	checkN(t, func(rt *rapid.T) {
+		if mc.TypeOperand > 0 && rapid.IntRange(0, mc.TypeOperand-1).Draw(rt, "typeOperand") == 0 {
+			mc.judge(rt, c, typeOperandCase(rt))
+			return
+		}
 		if mc.NestedChoice > 0 && rapid.IntRange(0, mc.NestedChoice-1).Draw(rt, "nestedChoice") == 0 {
 			mc.judge(rt, c, nestedChoiceCase(rt))
 			return
